@@ -603,6 +603,25 @@ HSetHeader(send) ==
                  icancel, rdpc, offer, localErr, wMu, srecvd, flushed, bodyShut, wbroken, writeFailed, strl,
                  pc, tmp, got, ncancel, ntrl>>
 
+\* the same with EMPTY metadata: nothing is added to the headers, but
+\* SendHeader still commits them (WriteHeader)
+HSetHeaderE(send) ==
+  /\ HRunning /\ bud["h"] > 0
+  /\ bud' = [bud EXCEPT !["h"] = @ - 1]
+  \* (the stream's own SetHeader refuses after the headers were sent; the
+  \* helper grpc.SetHeader(ctx, md) returns nil for empty metadata at once)
+  /\ \E ok \in (IF headersSent /\ ~send THEN BOOLEAN ELSE {~headersSent}) :
+       /\ headersSent' = (headersSent \/ (ok /\ send))
+       /\ snap' = IF ok /\ send /\ snap = NoHdr THEN shdr ELSE snap
+       /\ IF send
+            THEN Ev_HSendHeaderAtomic(0, ok) /\ Viol(Chk_HSendHeaderAtomic(0, ok))
+                 /\ Emit("HSendHeaderRet", 0, IF ok THEN RNil ELSE ROther, 0, <<>>)
+            ELSE Ev_HSetHeaderRet(0, ok) /\ Viol(Chk_HSetHeaderRet(0, ok))
+                 /\ Emit("HSetHeaderRet", 0, IF ok THEN RNil ELSE ROther, 0, <<>>)
+  /\ UNCHANGED <<reqWire, reqEnd, respHdr, respWire, respEnd, gone, ready, hd, hdErr, done, rErr, ctr, wErr, pipe,
+                 icancel, rdpc, offer, localErr, wMu, srecvd, flushed, bodyShut, wbroken, writeFailed, strl, shdr,
+                 pc, tmp, got, ncancel, nhdr, ntrl>>
+
 SetTrailerDo ==
   /\ HRunning /\ bud["h"] > 0 /\ ntrl < MaxTrl
   /\ bud' = [bud EXCEPT !["h"] = @ - 1] /\ ntrl' = ntrl + 1
@@ -663,7 +682,7 @@ Next ==
   \/ StartHeader \/ HeaderDone \/ TrailerDo
   \/ StartRecv \/ RecvCheckDone \/ RecvSelect \/ RecvProbe \/ RecvWoken \/ RecvSecond
   \/ StartHRecv \/ HRecvRead \/ HRecvProbe
-  \/ StartHSend \/ HSendDo \/ HSendRet \/ HSetHeader(TRUE) \/ HSetHeader(FALSE) \/ SetTrailerDo
+  \/ StartHSend \/ HSendDo \/ HSendRet \/ HSetHeader(TRUE) \/ HSetHeader(FALSE) \/ HSetHeaderE(TRUE) \/ HSetHeaderE(FALSE) \/ SetTrailerDo
   \/ \E s \in Statuses : HReturnDo(s)
   \/ Tail1
   \/ \E w \in CancelKinds : Cancel(w)
